@@ -17,7 +17,7 @@ fn nontrivial(v: &Verdict) -> bool {
 }
 
 pub fn exec(line: &str, rec: &mut Recorder) {
-    if line.starts_with("msg ") || line.starts_with("resp ") || line.starts_with("rt ") {
+    if ["msg ", "resp ", "rt ", "respb ", "badrec ", "cat "].iter().any(|p| line.starts_with(p)) {
         msgemit::exec(line, rec, |v| v.n_truncated >= 1)
     } else {
         encscript::exec(line, rec, nontrivial)
@@ -204,7 +204,7 @@ fn raw_script(r: &mut Rng) -> String {
 }
 
 pub fn run(o: &Opts, rec: &mut Recorder) {
-    rec.rule = "encoder scripts shaped like emit_message_parts (limit, 12-octet header place, question and 1-3 record sections written with emit_iter, items = owner name/type/class/ttl/RDLENGTH place/rdata/back-patch with A, name, MX, TXT, SRV-like, SOA-like and opaque rdata, occasionally an item failing with a non-size error or containing a nested emit_iter), each script run under limits drawn from 0..full length+2 (thorough: for one script in 12 every limit), plus raw primitive scripts under limits 0-90; a case is non-trivial when at least one write was refused for size (MaxBufferSizeExceeded or NotAllRecordsWritten); distinct by case line.  Stage 2: structured messages (tier-1 RDATA types, shared suffixes, 0-12 or 30-90 records per section, EDNS with/without options, TSIG, extended rcodes) given as wire bytes, re-encoded by Message::emit under every limit around each record boundary, the whole tail of the message and fixed/random limits (small messages: every limit), and sent through ResponseHandle::send_response over UDP (advertised payload none/0/300/512/1232/4096/65535) and TCP; deterministic adversarial messages (full candidate table before the cut, cut inside the additionals with OPT appended, complete 511/512/513-octet EDNS responses, empty-RDATA last record); a message case is non-trivial when at least one limit truncated it".into();
+    rec.rule = "encoder scripts shaped like emit_message_parts (limit, 12-octet header place, question and 1-3 record sections written with emit_iter, items = owner name/type/class/ttl/RDLENGTH place/rdata/back-patch with A, name, MX, TXT, SRV-like, SOA-like and opaque rdata, occasionally an item failing with a non-size error or containing a nested emit_iter), each script run under limits drawn from 0..full length+2 (thorough: for one script in 12 every limit), plus raw primitive scripts under limits 0-90; a case is non-trivial when at least one write was refused for size (MaxBufferSizeExceeded or NotAllRecordsWritten); distinct by case line.  Stage 2: structured messages (tier-1 RDATA types, shared suffixes, 0-12 or 30-90 records per section, EDNS with/without options, TSIG, extended rcodes) given as wire bytes, re-encoded by Message::emit under every limit around each record boundary, the whole tail of the message and fixed/random limits (small messages: every limit), and sent through ResponseHandle::send_response over UDP (advertised payload none/0/300/512/1232/4096/65535) and TCP; deterministic adversarial messages (full candidate table before the cut, cut inside the additionals with OPT appended, complete 511/512/513-octet EDNS responses, empty-RDATA last record); a message case is non-trivial when at least one limit truncated it.  Coverage-driven families: messages built from values with one record that cannot be encoded for a non-size reason, in every section and position, under limits before / inside / behind it and through the server (SERVFAIL fallback of MessageResponse::encode); every public way to build a MessageResponse (new, edns, soa iterator, no_queries, build_no_records, error_msg with plain and extended codes); the whole server path through the real Catalog::handle_request over an in-memory zone (answers of 0-40000 octets x every advertised payload, NXDOMAIN / NODATA / REFUSED / referral / wildcard / ANY, BADVERS, NOTIMP / FORMERR paths, NSID payloads up to 65535 octets, AXFR up to 80000 octets), judged against the same request over TCP".into();
     for l in o.pre_lines.clone() {
         exec(&l, rec);
     }
@@ -250,6 +250,21 @@ pub fn run(o: &Opts, rec: &mut Recorder) {
         rec.stat("line.msg.directed-per-type-cut");
         exec(&l, rec);
     }
+    // coverage review: a record that cannot be encoded for a reason other than size, in every section
+    // and position, under limits before / inside / behind it, and through the server (SERVFAIL fallback);
+    // the other public ways to build a MessageResponse; the whole server path through Catalog
+    for l in directed_bad_records() {
+        rec.stat("line.badrec");
+        exec(&l, rec);
+    }
+    for l in directed_builder_variants(o.seed, rec) {
+        rec.stat("line.respb");
+        exec(&l, rec);
+    }
+    for l in directed_catalog() {
+        rec.stat("line.cat");
+        exec(&l, rec);
+    }
     let mut r = Rng::new(o.seed ^ 0x5EC0_4D02);
     let n = o.n(150, 2500);
     for i in 0..n {
@@ -275,6 +290,135 @@ pub fn run(o: &Opts, rec: &mut Recorder) {
             exec(&format!("resp tcp {} {h}", r.pick(&["-", "1232"])), rec);
         }
     }
+}
+
+/// `badrec` lines: see `msgemit::bad_message`
+fn directed_bad_records() -> Vec<String> {
+    let mut v = vec![];
+    let kinds = ["good", "txt256", "hinfo256", "naptr256", "caatag256", "svcborder", "alpn0", "mandatory0"];
+    for kind in kinds {
+        for sec in ["an", "ns", "ar"] {
+            for (nb, na) in [(0usize, 0usize), (2, 1), (0, 2)] {
+                // header 12 + question 17 = 29; the first A record takes 28 octets, the next ones 20
+                let limits: Vec<u32> = if (nb, na) == (2, 1) && sec == "an" {
+                    (28..=100).chain([300, 400, 512, 65535]).collect()
+                } else {
+                    vec![12, 29, 56, 57, 58, 76, 77, 78, 90, 300, 512, 65535]
+                };
+                for l in limits {
+                    v.push(format!("badrec {kind} {sec} {nb} {na} L{l}"));
+                }
+                for mode in ["udp:-", "udp:1232", "tcp:-", "tcp:4096"] {
+                    v.push(format!("badrec {kind} {sec} {nb} {na} {mode}"));
+                }
+            }
+        }
+    }
+    for kind in ["good", "tsigtime", "tsigmac", "tsigother"] {
+        for (nb, na) in [(0usize, 0usize), (2, 1)] {
+            for l in [12u32, 29, 57, 77, 97, 140, 160, 512, 65535] {
+                v.push(format!("badrec {kind} sig {nb} {na} L{l}"));
+            }
+            for mode in ["udp:-", "udp:1232", "tcp:-"] {
+                v.push(format!("badrec {kind} sig {nb} {na} {mode}"));
+            }
+        }
+    }
+    v
+}
+
+/// `respb` lines: the same response parts handed to every public way of building a `MessageResponse`
+fn directed_builder_variants(seed: u64, rec: &mut Recorder) -> Vec<String> {
+    let mut v = vec![];
+    let mut r = Rng::new(seed ^ 0xB11D_E201);
+    let mut msgs: Vec<Vec<u8>> = vec![];
+    let mut tries = 0;
+    while msgs.len() < 5 && tries < 200 {
+        tries += 1;
+        let big = msgs.len() >= 3;
+        let Some(m) = gen_message_tier(&mut r, rec, big) else { continue };
+        if m.queries.len() != 1 {
+            continue;
+        }
+        if let Ok(b) = m.to_vec() {
+            // a small one, medium ones and two that exceed 512 octets
+            if (msgs.len() < 3) != (b.len() > 512) {
+                msgs.push(b);
+            }
+        }
+    }
+    let hows = [
+        "new", "edns", "soa", "noq", "norec", "noq-norec", "errmsg:0", "errmsg:2", "errmsg:3", "errmsg:5", "errmsg:16", "errmsg:23", "errmsg:4095",
+        "noq-errmsg:1", "noq-errmsg:2", "noq-errmsg:16",
+    ];
+    for b in &msgs {
+        let h = hex(b);
+        for how in hows {
+            for (proto, adv) in [("udp", "-"), ("udp", "512"), ("udp", "1232"), ("udp", "65535"), ("tcp", "-"), ("tcp", "1232")] {
+                v.push(format!("respb {how} {proto} {adv} {h}"));
+            }
+        }
+    }
+    v
+}
+
+/// `cat` lines: `cat <proto> <adv|-> <DO> <version> <nsid|-> <nrec> <rlen> <qname> <qtype> <op>`
+fn directed_catalog() -> Vec<String> {
+    let mut v = vec![];
+    // answers of 0 .. 40 000 octets against every advertised payload
+    for (nrec, rlen) in [(0usize, 0usize), (1, 10), (2, 200), (3, 255), (5, 100), (20, 100), (40, 255), (150, 255)] {
+        for (proto, adv) in [("udp", "-"), ("udp", "0"), ("udp", "511"), ("udp", "512"), ("udp", "513"), ("udp", "1232"), ("udp", "4096"), ("udp", "65535"), ("tcp", "-"), ("tcp", "1232")] {
+            v.push(format!("cat {proto} {adv} 0 0 - {nrec} {rlen} big 16 q"));
+        }
+    }
+    // sizes around the 512 / 1232 boundaries: n records of r octets -> 12 + 33 + n * (r + 13) (+ 11 for OPT)
+    for rlen in 60..=75usize {
+        v.push(format!("cat udp - 0 0 - 6 {rlen} big 16 q"));
+        v.push(format!("cat udp 512 0 0 - 6 {rlen} big 16 q"));
+    }
+    for rlen in 100..=110usize {
+        v.push(format!("cat udp 1232 1 0 - 10 {rlen} big 16 q"));
+    }
+    // every kind of outcome: NXDOMAIN / NODATA with the SOA, referral-free apex NS, out of zone (REFUSED),
+    // ANY, unsupported EDNS version (BADVERS), NOTIMP opcodes, UPDATE to a zone that takes none, a
+    // response sent as a request (FORMERR), NOTIFY
+    for (q, qtype) in [("nx", 1u16), ("www", 1), ("www", 28), ("apex", 2), ("apex", 6), ("apex", 255), ("out", 1), ("big", 255), ("big", 1)] {
+        for (proto, adv) in [("udp", "-"), ("udp", "512"), ("udp", "1232"), ("tcp", "-")] {
+            for dok in [0, 1] {
+                v.push(format!("cat {proto} {adv} {dok} 0 - 30 200 {q} {qtype} q"));
+            }
+        }
+    }
+    // a referral, a wildcard answer, and zone transfers of 4 / 40 / 80 thousand octets (the last one is
+    // more than one TCP message can hold)
+    for (q, qtype) in [("ref", 1u16), ("ref", 2), ("wild", 16), ("wild", 1)] {
+        for (proto, adv) in [("udp", "-"), ("udp", "1232"), ("tcp", "-")] {
+            v.push(format!("cat {proto} {adv} 1 0 - 3 100 {q} {qtype} q"));
+        }
+    }
+    for (nrec, rlen) in [(2usize, 50usize), (15, 255), (150, 255), (300, 255)] {
+        for (proto, adv) in [("tcp", "-"), ("tcp", "4096"), ("udp", "-"), ("udp", "65535")] {
+            v.push(format!("cat {proto} {adv} 0 0 - {nrec} {rlen} apex 252 q"));
+        }
+    }
+    for ver in [1u8, 255] {
+        for adv in ["0", "512", "4096"] {
+            v.push(format!("cat udp {adv} 0 {ver} - 30 200 big 16 q"));
+        }
+    }
+    for op in ["u", "s", "n", "r"] {
+        for (proto, adv) in [("udp", "-"), ("udp", "1232"), ("tcp", "-")] {
+            v.push(format!("cat {proto} {adv} 0 0 - 30 200 apex 6 {op}"));
+        }
+    }
+    // NSID: a payload that fits, one that fills the datagram, one that cannot fit any datagram
+    for nsid in [0usize, 8, 400, 480, 490, 500, 1200, 4000, 65535] {
+        for (proto, adv) in [("udp", "512"), ("udp", "1232"), ("udp", "65535"), ("tcp", "512")] {
+            v.push(format!("cat {proto} {adv} 0 0 {nsid} 2 100 big 16 q"));
+            v.push(format!("cat {proto} {adv} 0 0 {nsid} 0 0 nx 1 q"));
+        }
+    }
+    v
 }
 
 fn nm(labels: &[&str]) -> Name {
